@@ -332,6 +332,41 @@ def gen_strings(rng, cid, tier):
     return Case(cid, [], ops, tag="fi-strings-%d" % size)
 
 
+def gen_eps2048(rng, cid, chosen):
+    """the witness of c07_epsilon_2048_refuted replayed on the crate: map size 2048, 1537 distinct items, 514 of weight 100
+    and 1023 of weight 1; the 1537th insert purges.  chosen=False: the items 0..1536 of the Coq witness (the crate's
+    table order decides the sample).  chosen=True: items chosen for their hashes so that the 514 heavy items come first in
+    table order -- the sample (first 1024 counters) is then the one of the witness: 514 x 100 and 510 x 1, median 100,
+    maximum_error 100 > 3.5/2048 * 52423 = 89.6 (and 512 * 100 <= 52423, the bound that does hold from 2048 on)."""
+    if chosen:
+        heavy, light, x = [], [], 0
+        while len(heavy) < 514 or len(light) < 1023:
+            home = h(x) & 2047
+            if home < 700 and len(heavy) < 514:
+                heavy.append(x)
+            elif 700 <= home < 2040 and len(light) < 1023:
+                light.append(x)
+            x += 1
+    else:
+        heavy, light = list(range(514)), list(range(514, 1537))
+    ops = [(0, [0, 2048])]
+    for x in heavy:
+        ops.append((1, [0, x, 100, h(x)]))
+    for x in light[:-1]:
+        ops.append((1, [0, x, 1, h(x)]))
+    ops += [(3, [0]), (1, [0, light[-1], 1, h(light[-1])]), (3, [0])]
+    for x in (heavy[0], heavy[-1], light[0], light[-1], 10**9 + 7):
+        ops.append((2, [0, x, h(x)]))
+    ops += [(5, [0, 0, 0, 0]), (5, [0, 1, 0, 0]), (12, [0])]
+    return Case(cid, [], ops, tag="fi-eps2048-%s" % ("chosen" if chosen else "literal"))
+
+
+def kf_never(case):
+    """C07-freq-epsilon-2048 documents a deviation from the crate's documentation that the property text does not claim:
+    the oracle checks the bound that does hold (maximum_error <= N/512), so no oracle failure is ever excused by it"""
+    return False
+
+
 def gen_badnew(rng, cid):
     size = rng.choice([0, 3, 12, 100, 1, 2, 4])
     ops = [(0, [0, size]), (3, [0]), (1, [0, 5, 2, h(5)]), (2, [0, 5, h(5)]), (6, [0])]
@@ -926,7 +961,9 @@ def gen_extremes(rng, cid, tier, what):
 def gen_size(rng, cid, tier, size, lgn):
     """C18: growing streams (distinct, repeated, adversarially ordered); after every power-of-two prefix the number of
     active items and the image size are observed (oracle prop_layout: active <= 3/4 map size, len = 8 | 32 + 16 * active)"""
-    kind = rng.choice(["distinct", "repeated", "sorted", "clustered"])
+    # ("clustered" only where a probe run cannot reach DRIFT_LIMIT = 1024 occupied slots: capacity 768 at map size 1024;
+    #  at 2048 it is the known finding C17-freq-drift-limit, exercised by its own leg)
+    kind = rng.choice(["distinct", "repeated", "sorted", "clustered"] if size <= 1024 else ["distinct", "repeated", "sorted"])
     n = 1 << lgn
     if kind == "distinct":
         items = fresh_items(rng, n, "random")
@@ -1046,6 +1083,7 @@ def gen(rng, tier, n=None, focus=None):
              ("merge", [4, 2, 8], None), ("d6", 4, None)]
     plan += [("heavy", 8, None), ("heavy", rng.choice([16, 32, 64, 128]), None)]
     plan += [("images", None, None), ("badnew", None, None), ("strings", None, None), ("strings", None, None)]
+    plan += [("eps2048", False, None), ("eps2048", True, None)]
     nskel = len(plan)
     while len(plan) < n:
         r = rng.random()
@@ -1085,6 +1123,8 @@ def gen(rng, tier, n=None, focus=None):
             cases.append(gen_images(rng, i))
         elif what == "strings":
             cases.append(gen_strings(rng, i, tier))
+        elif what == "eps2048":
+            cases.append(gen_eps2048(rng, i, a))
         else:
             cases.append(gen_badnew(rng, i))
     return cases
